@@ -920,3 +920,77 @@ func TestC15OperatorFile(t *testing.T) {
 		}
 	})
 }
+
+// TestC15ManyAccounts: the three views agree for any number of accounts - also for more than fit one byte of a count.
+// The accounts exist as files when the server starts (what an operator's provisioning script leaves), some more are made
+// through the protocol; the listing must show each of them once.
+func TestC15ManyAccounts(t *testing.T) {
+	ev := evid.New("C15", "TestC15ManyAccounts")
+	defer ev.Flush()
+	rapid.Check(t, func(rt *rapid.T) {
+		n := rapid.SampledFrom([]int{300, 254, 255, 256, 257, 513}).Draw(rt, "accounts")
+		extra := rapid.IntRange(0, 3).Draw(rt, "createdThroughTheProtocol")
+		accounts := []hlsim.AccountSpec{acct("admin", "Admin", "adminpw", allAccess)}
+		for i := 0; i < n; i++ {
+			pw := ""
+			if i%7 == 0 {
+				pw = "pw"
+			}
+			accounts = append(accounts, hlsim.AccountSpec{Login: fmt.Sprintf("user%04d", i), Name: fmt.Sprintf("User %d", i), Password: pw, Access: hlref.AccessOf(hlref.PrivReadChat)})
+		}
+		inWorld(rt, hlsim.Options{Accounts: accounts, Agreement: "a"}, func(rt *rapid.T, w *hlsim.World) {
+			admin := loginAs(rt, w, "10.15.3.1:1", "admin", "adminpw", "admin")
+			want := map[string]bool{"admin": true}
+			for i := 0; i < n; i++ {
+				want[fmt.Sprintf("user%04d", i)] = true
+			}
+			for i := 0; i < extra; i++ {
+				l := fmt.Sprintf("made%d", i)
+				if r := admin.Request(hlref.TranNewUser, hlref.F(hlref.FUserLogin, hlref.Obfuscate([]byte(l))), sfld(hlref.FUserName, "Made"), hlref.F(hlref.FUserPassword, hlref.Obfuscate([]byte("pw"))), hlref.F(hlref.FUserAccess, make([]byte, 8))); !okReply(r) {
+					rt.Fatalf("with %d accounts: new-user %q refused: %s", n, l, replySummary(r))
+				}
+				want[l] = true
+			}
+			lr := admin.Request(hlref.TranListUsers)
+			if !okReply(lr) {
+				rt.Fatalf("with %d accounts the account listing is refused / not answered: %s", len(want), replySummary(lr))
+			}
+			seen := map[string]int{}
+			for _, d := range lr.GetAll(hlref.FData) {
+				fs, err := hlref.DecodeSubFields(d)
+				if err != nil {
+					rt.Fatalf("list-users record unparseable: %v", err)
+				}
+				rec := hlref.Tran{Fields: fs}
+				login, _ := rec.Get(hlref.FUserLogin)
+				seen[string(hlref.Obfuscate(login))]++
+			}
+			missing, twice := 0, 0
+			for l := range want {
+				switch seen[l] {
+				case 0:
+					missing++
+				case 1:
+				default:
+					twice++
+				}
+			}
+			if missing != 0 || twice != 0 || len(seen) != len(want) {
+				rt.Fatalf("%d accounts have files and can log in; the account listing shows %d different logins: %d missing, %d more than once", len(want), len(seen), missing, twice)
+			}
+			// a sample of them logs in
+			for _, i := range []int{0, n / 2, n - 1} {
+				l, pw := fmt.Sprintf("user%04d", i), ""
+				if i%7 == 0 {
+					pw = "pw"
+				}
+				c := w.Connect(fmt.Sprintf("10.15.3.%d:9", 2+i%200))
+				if r := c.Login(hlsim.LoginOpts{Login: l, Password: pw, Name: []byte("x"), Icon: 1}); r == nil || r.Err != 0 {
+					rt.Fatalf("with %d accounts: %q cannot log in", len(want), l)
+				}
+				c.Close()
+			}
+		})
+		ev.Case(evid.Hash("many", n, extra), n > 255, fmt.Sprintf("accounts:%d", n))
+	})
+}
